@@ -6,6 +6,7 @@ import (
 	"os"
 	"path/filepath"
 	"runtime"
+	"strings"
 	"testing"
 	"time"
 
@@ -15,13 +16,13 @@ import (
 
 const rule = "inputs (<= 4 KiB) for every decoder (ReadSTL + STLReader rows, ReadOFF + OFFReader rows, ReadColorPLY, PLYReader rows + NewPLYHeaderDecode, DecodeCSV + SegmentCSVReader rows): (enum-truncate) every prefix of harness-written valid files (binary/ASCII STL, OFF with polygon faces, colour PLY and generic PLY in the three encodings, CSV); (mutate) one or two single-field corruptions of a random valid file (counts / list lengths in {-1,0,1,n-1,n+1,2^31-1,2^31,2^32-1,2^63-1}, indices in {-1,n,2^31-1}, type names swapped or unknown, properties removed, tokens duplicated/deleted/swapped/inserted, byte flips); (bytes) strings drawn from a per-format token dictionary, optionally after a valid prefix. Non-trivial: a truncation or mutation of a valid file, or a byte string whose header the decoder accepted (record decoding reached). Distinct: hash of the JSON case (the bytes)."
 
-const offTag = "off-degenerate-polygon"
-
 // byteCase is the case of every clause: the exact bytes fed to the decoders
 // (base64 in JSON) and, for information only, where they came from.
 type byteCase struct {
-	Data []byte `json:"data_b64"`
-	Note string `json:"note,omitempty"`
+	Data []byte   `json:"data_b64"`
+	Kind string   `json:"kind,omitempty"` // what the bytes were derived from
+	Ops  []string `json:"ops,omitempty"`  // the corruptions applied
+	Note string   `json:"note,omitempty"`
 }
 
 func checker(target string, always bool) func(c byteCase, o *kit.Obs) error {
@@ -30,10 +31,21 @@ func checker(target string, always bool) func(c byteCase, o *kit.Obs) error {
 			return fmt.Errorf("%w: case of %d bytes exceeds the 4 KiB domain", kit.ErrInfra, len(c.Data))
 		}
 		var rep report
-		excluded, err := checkTarget(target, c.Data, kit.Excluded(offTag), &rep)
-		if excluded {
-			kit.CountExcluded(offTag)
-			o.Label("excluded:" + offTag)
+		excluded, err := checkTarget(target, c.Data, exclusions{offPolygon: kit.Excluded(offTag), offPrealloc: kit.Excluded(offPreallocTag)}, &rep)
+		for _, tag := range excluded {
+			kit.CountExcluded(tag)
+			o.Label("excluded:" + tag)
+		}
+		if c.Kind != "" {
+			o.Label("from:" + c.Kind)
+		}
+		for _, op := range c.Ops {
+			o.Label("op:" + op)
+		}
+		if rep.ok {
+			o.Label("result:data")
+		} else {
+			o.Label("result:error")
 		}
 		seen := map[string]bool{}
 		for _, l := range rep.labels {
@@ -44,9 +56,6 @@ func checker(target string, always bool) func(c byteCase, o *kit.Obs) error {
 		}
 		if rep.accepted {
 			o.Label("header-accepted")
-		}
-		if rep.ok {
-			o.Label("decoded-without-error")
 		}
 		if always || rep.accepted {
 			o.NonTrivial()
@@ -89,7 +98,7 @@ func (c *corpus) at(i int) byteCase {
 		}
 	}
 	cut := i - c.starts[lo]
-	return byteCase{Data: c.files[lo][:cut:cut], Note: fmt.Sprintf("%s corpus file %d (%d bytes) cut at %d", c.kinds[lo], lo, len(c.files[lo]), cut)}
+	return byteCase{Data: c.files[lo][:cut:cut], Kind: c.kinds[lo], Note: fmt.Sprintf("corpus file %d (%d bytes) cut at %d", lo, len(c.files[lo]), cut)}
 }
 
 // enumFresh wraps an enumerated check so that the case is on disk while it runs
@@ -121,28 +130,30 @@ func genMutate(fm *format) func(t *rapid.T) byteCase {
 	return func(t *rapid.T) byteCase {
 		s := rapidSrc{t}
 		f := fm.build(s)
-		note := f.Kind + ":"
+		c := byteCase{Kind: f.Kind}
 		for i := s.Int(1, 2, "nmutations"); i > 0; i-- {
-			note += " " + mutate(s, f)
+			d := mutate(s, f)
+			c.Ops = append(c.Ops, strings.FieldsFunc(d, func(r rune) bool { return r == '#' || r == '@' || r == ' ' })[0])
+			c.Note += d + " "
 		}
-		b := f.bytes()
-		if len(b) > maxInput {
-			b = b[:maxInput]
+		c.Data = f.bytes()
+		if len(c.Data) > maxInput {
+			c.Data = c.Data[:maxInput]
 		}
-		return byteCase{Data: b, Note: note}
+		return c
 	}
 }
 
 func genBytes(fm *format) func(t *rapid.T) byteCase {
 	return func(t *rapid.T) byteCase {
 		b, note := soup(rapidSrc{t}, fm)
-		return byteCase{Data: b, Note: note}
+		return byteCase{Data: b, Kind: note}
 	}
 }
 
 func TestProp(t *testing.T) {
-	runtime.GOMAXPROCS(2)
-	nfiles := 14
+	runtime.GOMAXPROCS(1) // the allocation meter stops the world twice per decoder call: 5x cheaper with one P
+	nfiles := 30
 	if kit.Tier() == "thorough" {
 		nfiles = 120
 	}
@@ -154,8 +165,8 @@ func TestProp(t *testing.T) {
 		en := "C16/" + name + "/enum-truncate"
 		clauses = append(clauses,
 			kit.Enum[byteCase]{Name: en, N: cp.total, At: cp.at, Check: enumFresh(en, checker(name, true)), Budget: budget},
-			kit.Clause[byteCase]{Name: "C16/" + name + "/mutate", Quick: 4000, Thorough: 200000, Gen: genMutate(fm), Check: checker(name, true), Budget: budget, Fresh: true},
-			kit.Clause[byteCase]{Name: "C16/" + name + "/bytes", Quick: 2500, Thorough: 120000, Gen: genBytes(fm), Check: checker(name, false), Budget: budget, Fresh: true},
+			kit.Clause[byteCase]{Name: "C16/" + name + "/mutate", Quick: 10000, Thorough: 200000, Gen: genMutate(fm), Check: checker(name, true), Budget: budget, Fresh: true},
+			kit.Clause[byteCase]{Name: "C16/" + name + "/bytes", Quick: 6000, Thorough: 120000, Gen: genBytes(fm), Check: checker(name, false), Budget: budget, Fresh: true},
 		)
 	}
 	kit.Run(t, "C16", rule, clauses...)
@@ -168,7 +179,7 @@ func TestCorpusValid(t *testing.T) {
 		cp := buildCorpus(formats[name], 300)
 		for i, b := range cp.files {
 			var rep report
-			if _, err := checkTarget(name, b, false, &rep); err != nil {
+			if _, err := checkTarget(name, b, exclusions{}, &rep); err != nil {
 				t.Errorf("%s file %d (%s): %v\n%q", name, i, cp.kinds[i], err, b)
 			}
 			if !rep.ok {
